@@ -41,7 +41,7 @@ STEPV = {None: ["default"], "ConjugateGradient": ["default", "P"], "GradientMeth
 def bounds(tier):
     return {"solver": [str(s) for s in SOLVERS], "step variants": {str(k): v for k, v in STEPV.items()}, "lamda": [0, 0.5],
             "z": ["None", "array"], "proxg": ["None", "L1Reg(0.3)", "L2Reg(0.5)", "BoxConstraint(-0.25,0.4)"],
-            "G": ["None", "dense 3xn", "FiniteDifference"], "x": ["None", "zeros", "minimiser of the smooth part", "the minimiser", "generic"],
+            "G": ["None", "dense 3xn", "FiniteDifference"], "x": ["None", "zeros", "minimiser of the smooth part", "the minimiser", "generic", "generic, read-only"],
             "A": ["Identity", "dense real 3x2", "2x2 and circulant 3x3 with the constant vector as a non-dominant eigenvector of A^H A"] + (["Multiply(diag)", "dense complex 3x2"] if tier == "thorough" else [])}
 
 
@@ -86,7 +86,7 @@ def gen_cases(tier, seed):
                 for pg in (None, "l1", "l2sq", "box"):
                     if solver == "ConjugateGradient" and pg:
                         continue
-                    for xg in ("ls", "opt", "generic"):
+                    for xg in ("ls", "opt", "generic", "readonly"):
                         cases.append(dict(kind="lls", A=A, solver=solver, step=STEPV[solver][0], lamda=lam, z=False, proxg=pg, G=None, x=xg))
     # problems far from unit scale (A -> sa*A, y -> sy*y, l1 weight scaled so that the problem is equivalent): the
     # documented minimiser is scale-equivariant, a solver with an absolute threshold is not
@@ -297,8 +297,10 @@ def run_case(case, seed):
             x_in[...] = xls.reshape(shp).astype(dt)
         elif case["x"] == "opt":
             x_in[...] = (xr.real if dt == np.float64 else xr).reshape(shp).astype(dt)     # already optimal: must stay
-        elif case["x"] == "generic":
+        elif case["x"] in ("generic", "readonly"):
             x_in[...] = (np.cos(np.arange(n) + 1.0) * 0.7).reshape(shp).astype(dt)
+        if case["x"] == "readonly":
+            x_in.setflags(write=False)      # the solution cannot be written there: an error is fine, a silent non-answer is not
         kw["x"] = x_in
     snapA = snapshot.walk(A)
     excluded = (case["solver"] == "ConjugateGradient" and kind) or (case["solver"] == "GradientMethod" and G is not None)
